@@ -31,6 +31,8 @@ func same[T any](a, b T) bool { return true }
 
 func elems[T any](s []T, r ...int) bool { return true }
 
+func exists[T any](f func(T) bool) bool { return true }
+
 // =====================================================================
 // C41 — route configuration parses exactly
 // =====================================================================
@@ -101,15 +103,19 @@ func specField(c *config.C, key string, j int, field string, bits int, dflt int)
 //@   ensures[shape] implies(result1 != nil, len(result0) == 0)
 //@   ensures[count] implies(result1 == nil && specConfigGet(c, "tun.routes") != nil, len(result0) == old(specCount(c, "tun.routes")))
 //@   ensures[mtu]   implies(result1 == nil && 0 <= j && j < len(result0), result0[j].MTU == old(specField(c, "tun.routes", j, "mtu", 0, 0)) && result0[j].MTU >= 500 && result0[j].Install)
+//@   ensures[inside] implies(result1 == nil && 0 <= j && j < len(result0), exists(func(m int) bool { return 0 <= m && m < len(networks) && networks[m].Contains(result0[j].Cidr.Addr()) && result0[j].Cidr.Bits() >= networks[m].Bits() }))
 //@   loop 1 invariant[frame] len(routes) == len(rawRoutes)
 //@   loop 1 invariant[done]  implies(0 <= j && j < i, routes[j].MTU == old(specField(c, "tun.routes", j, "mtu", 0, 0)) && routes[j].MTU >= 500 && routes[j].Install)
+//@   loop 1 invariant[inside] implies(0 <= j && j < i, exists(func(m int) bool { return 0 <= m && m < len(networks) && networks[m].Contains(routes[j].Cidr.Addr()) && routes[j].Cidr.Bits() >= networks[m].Bits() }))
 //@   loop 1 assigns elems(routes)
-//@   loop 2 invariant true
+//@   loop 2 invariant !found
 
 //@ func parseUnsafeRoutes
 //@   props C41
 //@   ghost j int
+//@   ghost n int
 //@   requires c != nil
+//@   ensures[outside] implies(result1 == nil && 0 <= j && j < len(result0) && 0 <= n && n < len(networks), !networks[n].Contains(result0[j].Cidr.Addr()))
 //@   ensures[shape]  implies(result1 != nil, len(result0) == 0)
 //@   ensures[count]  implies(result1 == nil && specConfigGet(c, "tun.unsafe_routes") != nil, len(result0) == old(specCount(c, "tun.unsafe_routes")))
 //@   ensures[metric] implies(result1 == nil && 0 <= j && j < len(result0), result0[j].Metric == old(specField(c, "tun.unsafe_routes", j, "metric", 32, 0)) && 0 <= result0[j].Metric && result0[j].Metric <= 1<<31-1)
@@ -117,7 +123,8 @@ func specField(c *config.C, key string, j int, field string, bits int, dflt int)
 //@   loop 1 invariant[frame]  len(routes) == len(rawRoutes)
 //@   loop 1 invariant[metric] implies(0 <= j && j < i, routes[j].Metric == old(specField(c, "tun.unsafe_routes", j, "metric", 32, 0)) && 0 <= routes[j].Metric && routes[j].Metric <= 1<<31-1)
 //@   loop 1 invariant[mtu]    implies(0 <= j && j < i, routes[j].MTU == old(specField(c, "tun.unsafe_routes", j, "mtu", 0, 0)) && (routes[j].MTU == 0 || routes[j].MTU >= 500))
+//@   loop 1 invariant[outside] implies(0 <= j && j < i && 0 <= n && n < len(networks), !networks[n].Contains(routes[j].Cidr.Addr()))
 //@   loop 1 assigns elems(routes)
 //@   loop 2 invariant true
 //@   loop 2 assigns elems(gateways)
-//@   loop 3 invariant true
+//@   loop 3 invariant implies(0 <= n && n < rangeindex, !networks[n].Contains(r.Cidr.Addr()))
